@@ -118,18 +118,16 @@ def run_enum(prop, tier, evalref, cases, *, rule, assumptions=(), chunk=32, leve
 
 
 def replay_case(rec):
-    """Replay artefact of an E2 check: evaluate the one case again, twice."""
-    fn = _resolve(rec['evalref'])
+    """Replay artefact of an E2 check: evaluate the one case again, twice, each time in its own process (a case that
+    kills the interpreter must not take the replay command down with it)."""
     runs = []
     for _ in range(2):
-        wd = fresh_dir('replay')
-        old = os.getcwd()
-        os.chdir(wd)
-        try:
-            viols, klass, _n = fn(rec['case'])
-        finally:
-            os.chdir(old)
-            rmtree(wd)
+        out = fork_map(_eval_chunk, [(rec['evalref'], [rec['case']])], procs=1, always_fork=True,
+                       on_death=lambda job, status: ('DIED', status))[0]
+        if isinstance(out, tuple) and out and out[0] == 'DIED':
+            runs.append([('"crash"', f'evaluating the case killed the interpreter (wait status {out[1]})')])
+            continue
+        viols, klass, _n = out[0]
         runs.append([(jdump(s), w) for (s, w, d) in viols])
     if runs[0] != runs[1]:
         print('REPLAY NOT DETERMINISTIC')
